@@ -288,7 +288,7 @@ class MapInstruction(MichelsonInstruction, prim='MAP', args_len=1):
             executions.append(execution)
             new_elt = stack.pop1()
             if isinstance(src, MapType):
-                items.append((elt[0], new_elt))
+                items.append((elt.items[0], new_elt))
             else:
                 items.append(new_elt)  # type: ignore
             popped = [new_elt]  # type: ignore
